@@ -3,7 +3,7 @@
 
 usage: rebase_patches.py <base-commit> <patch-dir>...
 Each patch is applied to the tree of <base-commit>, the fix is carried into the result by the textual rule below (the one construct the fix
-2ba5ca8 changed: a signal squared in its own element type), and the patch is re-written as the difference to the current /repo tree.  The
+39275fc changed: a signal squared in its own element type), and the patch is re-written as the difference to the current /repo tree.  The
 original is kept as patch.orig.diff."""
 import os
 import re
@@ -14,7 +14,7 @@ import tempfile
 
 base = sys.argv[1]
 dirs = sys.argv[2:]
-PROMOTE = r"\1.astype(np.result_type(\1.dtype, np.float64), copy=False)"
+PROMOTE = r"(\1.astype(np.float64) if \1.dtype.kind in 'iub' else \1)"
 RULES = [
     (re.compile(r"np\.mean\(((?:self\.)?\w+)\s*\*\*\s*2\)"), "np.mean(" + PROMOTE + " ** 2)"),
     (re.compile(r"np\.square\(((?:self\.)?\w+)\)\.mean\(\)"), "np.square(" + PROMOTE + ").mean()"),
